@@ -14,7 +14,7 @@ func init() {
 	extraLemmaFuncs = append(extraLemmaFuncs, c05LemmaFuncs...)
 	Register(&Spec{
 		ID:          "C05",
-		Explanation: "Decides that the pointer-word encoders produce the bit layout of the encoding specification (R1, abstract interpretation over per-bit provenance: struct, list, interface, far, double-far pointers and withOffset) and that each decoder applied to each encoder returns the encoded argument bits (R1i, composition in the same domain); that List.raw, nearPointerOffset and allocSize have their confirmed normal forms (R2: composite count is length*words per element, bit lists use bit1List, element sizes 0/1/2/4/8 map to void/byte1/2/4/8); and that writePtr emits each pointer shape under the right condition and into the right segment (R3: zero-sized struct -> offset -1 without allocation; same segment -> near pointer; otherwise a one-word pad in the target's segment only under hasCapacity, else a two-word pad whose first word is a far pointer to the object and whose second word is the tag with zero offset; composite lists are addressed at their tag word). (R4) an address returned by alloc is used only with the segment returned by the same call (or under a dominating hasCapacity for the preferred segment). Allocation disjointness and the segment table are C04-R2/R3. (R5z, R5s) alloc zero-fills on every success path and decoded segments cannot grow into their neighbours (shared with C04-R2 and C14-R4). Does NOT decide that an independent decoder reconstructs the written tree.",
+		Explanation: "Decides that the pointer-word encoders produce the bit layout of the encoding specification (R1, abstract interpretation over per-bit provenance: struct, list, interface, far, double-far pointers and withOffset) and that each decoder applied to each encoder returns the encoded argument bits (R1i, composition in the same domain); that List.raw, nearPointerOffset and allocSize have their confirmed normal forms (R2: composite count is length*words per element, bit lists use bit1List, element sizes 0/1/2/4/8 map to void/byte1/2/4/8); and that writePtr emits each pointer shape under the right condition and into the right segment (R3: zero-sized struct -> offset -1 without allocation; same segment -> near pointer; otherwise a one-word pad in the target's segment only under hasCapacity, else a two-word pad whose first word is a far pointer to the object and whose second word is the tag with zero offset; composite lists are addressed at their tag word). (R4) an address returned by alloc is used only with the segment returned by the same call (or under a dominating hasCapacity for the preferred segment). Allocation disjointness and the segment table are C04-R2/R3. (R5z, R5s) alloc zero-fills on every success path and decoded segments cannot grow into their neighbours (shared with C04-R2 and C14-R4). (R6d) Segment.data is replaced only by alloc/setSegment/Reset (shared with C01-R1); (R7) the Encoder's scratch slices start empty in every Encode (shared with C04-R7). Does NOT decide that an independent decoder reconstructs the written tree.",
 		Run:         runC05,
 	})
 }
@@ -82,6 +82,12 @@ func runC05(ctx *Ctx) {
 	// under this property's id
 	ruleAllocLemma(ctx, "C05-R5z")
 	ruleCappedSlices(ctx, "C05-R5s")
+	// objects already handed out keep their place: Segment.data is replaced
+	// only by alloc/setSegment/Reset, never cut back (shared with C01-R1)
+	ruleDataConfinement(ctx, "C05-R6d")
+	// the segment table describes exactly the segments that follow it: the
+	// Encoder's scratch slices start empty in every Encode (shared with C04-R7)
+	ruleEncoderScratchStartsEmpty(ctx, "C05-R7")
 	r := ctx.Rep
 	r.Floor("C05-R1", 5)
 	r.Floor("C05-R1i", 12)
